@@ -51,6 +51,10 @@ def run(chk):
         r['mapping'][0][0] = r['mapping'][1][0]
         return r
     core.binding_demo(chk, 'bind-perm', 'Trace_Align', 'Trace_Align.cfg', good, corrupt, 'perm', candidates=goods[1:])
+    # built-in spatial/spectral alignment of the integration models (never worse than the identity)
+    chk.mc('inline-pa', 'MC_InlinePA', 'MC_InlinePA_q.cfg' if q else 'MC_InlinePA.cfg', workers=8)
+    irecs = core.run_driver('mm', tier=chk.tier, seed=chk.seed, args=dict(prop='inlinepa'))
+    chk.validate('inline-pa', 'Trace_MM', 'Trace_MM.cfg', irecs, driver='mm', jobs=12)
     # helpers the aligners build on (interleave, sample_random_mapping, ...): Utils.tla
     chk.mc('layout-helpers', 'MC_Utils', 'MC_Utils.cfg', workers=8)
     urecs = core.run_driver('utils', tier=chk.tier, seed=chk.seed)
